@@ -23,6 +23,7 @@ type storeScenario struct {
 	ID      int               `json:"id"`
 	Size    uint64            `json:"size"`
 	Fork    bool              `json:"fork"`
+	ParentSize uint64         `json:"parent_size"` // with fork: the table size of the engine instance the store is forked from (0 = the same)
 	Expired bool              `json:"expired"`
 	Ops     [][]interface{}   `json:"ops"`
 }
@@ -99,6 +100,18 @@ func newStore(sc *storeScenario) (storage.Engine, error) {
 		c.Add("maxIdleTableTimeout", time.Duration(0))
 	} else {
 		c.Add("maxIdleTableTimeout", 24*time.Hour)
+	}
+	if sc.Fork && sc.ParentSize != 0 {
+		// what dmap.newFragment does when the engine instance (config.Engine.Implementation) was built with another table
+		// size than the DMap's engine configuration: Fork(the DMap's configuration) on that instance
+		pc := storage.NewConfig(nil)
+		pc.Add("tableSize", sc.ParentSize)
+		pc.Add("maxIdleTableTimeout", 24*time.Hour)
+		parent, err := kvstore.New(pc)
+		if err != nil {
+			return nil, err
+		}
+		return parent.Fork(c)
 	}
 	k, err := kvstore.New(c)
 	if err != nil {
